@@ -199,6 +199,8 @@ def check(ctx: Ctx) -> None:
     check_accumulators_initialised(ctx, 'C03.m', [FA, SU, MU], floor=4)
     from ..units import check_units
     check_units(ctx, 'C03.n', [FA, SU, MU], floor=5)
+    from ..idioms import check_no_alias_inplace
+    check_no_alias_inplace(ctx, 'C03.p', [FA, SU, MU], floor=50)
     # ------------------------------------------------------------------ C03.a
     ctx.rule('C03.a', 'slice length is not floor(span/step)', floor=1)
     fn = M.func(FA, 'TdlChannel.corrupt_data_in_freq_domain')
